@@ -99,6 +99,10 @@ theorem after_close_worker (fixed : Bool) (sid : Nat) (cs cs' : List Choice) :
   refine ⟨fun h => exited_run fixed _ cs' h, fun hc hs => ?_⟩
   simp [step, hs, hc]
 
+private theorem retry_close_fixed (s : State) (snd : Bytes) (wrSz k : Nat) (hcl : s.closed = true)
+    (hs : s.wpc = .retry snd wrSz k) : (step true s .wClose).wpc = .x1 := by
+  simp [step, hs, hcl]
+
 private theorem read_fixed (s : State) (n : Nat) (hcl : s.closed = true) (hr : s.rd = .idle) :
     (step true s (.readCall n)).out = .rFail :: s.out ∧ (step true s (.readCall n)).readOut = s.readOut := by
   simp only [step, stepReadCall, hr, hcl, Bool.and_self, ↓reduceIte, say, and_self]
@@ -114,7 +118,10 @@ theorem after_close_read (sid : Nat) (cs cs' : List Choice) (n : Nat)
       (step codeFixed s (.readCall n)).readOut = s.readOut := by
   exact read_fixed _ n (closed_run codeFixed _ cs' hc) hidle
 
-/-- **after_close**: Write, Read and the worker together, for the code under test. -/
+/-- **after_close**: Write, Read and the worker together, for the code under test: the
+    connection stays closed; a Write / Read that is called fails; a worker that has left its loop
+    issues no further request; and leaving is enabled wherever the worker waits — at the loop
+    head (`select`) and in `roundTrip`'s retry wait. -/
 theorem after_close (sid : Nat) (cs cs' : List Choice) (b : Bytes) (n : Nat)
     (hc : (run codeFixed (init sid) cs).closed = true) :
     let s := run codeFixed (run codeFixed (init sid) cs) cs'
@@ -122,12 +129,15 @@ theorem after_close (sid : Nat) (cs cs' : List Choice) (b : Bytes) (n : Nat)
     (s.wr = .idle → (step codeFixed s (.writeCall b)).out = .wFail :: s.out) ∧
     (s.rd = .idle → (step codeFixed s (.readCall n)).out = .rFail :: s.out) ∧
     (exited s = true → ∀ cs'', (run codeFixed s cs'').reqs = s.reqs) ∧
-    (s.wpc = .sel → (step codeFixed s .wClose).wpc = .x1) := by
+    (s.wpc = .sel → (step codeFixed s .wClose).wpc = .x1) ∧
+    (∀ snd wrSz k, s.wpc = .retry snd wrSz k → (step codeFixed s .wClose).wpc = .x1) := by
   have hcl := closed_run codeFixed _ cs' hc
-  refine ⟨hcl, fun hw => ?_, fun hr => ?_, fun he cs'' => (exited_run codeFixed _ cs'' he).2, fun hs => ?_⟩
+  refine ⟨hcl, fun hw => ?_, fun hr => ?_, fun he cs'' => (exited_run codeFixed _ cs'' he).2, fun hs => ?_,
+    fun snd wrSz k hs => ?_⟩
   · simp only [step, stepWriteCall, hw, hcl, ↓reduceIte, say]
   · exact (read_fixed _ n hcl hr).1
   · simp [step, hs, hcl]
+  · exact retry_close_fixed _ snd wrSz k hcl hs
 
 /-- a session that is closed with a response still queued: the post-close Write and Read fail -/
 example :
@@ -141,6 +151,15 @@ example :
 theorem read_after_close_counterexample :
     (run false (init 0) [.wTimer, .wStep, .sOk [1, 2, 3], .wStep, .wStep, .close, .readCall 8, .readDeq]).out
       = [.rData [1, 2, 3], .closeOk] := by
+  decide
+
+/-- **the second defect of the released code** (`fixed = false`): a poll is answered non-200,
+    the application closes, `Close` returns — and when the retry delay has passed the worker
+    sends the request again (`wClose` is not enabled in the retry wait: the state is unchanged). -/
+theorem retry_after_close_counterexample :
+    let s := run false (init 0) [.wTimer, .wStep, .sNon200, .close]
+    s.out = [.closeOk] ∧ s.reqs.length = 1 ∧ step false s .wClose = s ∧
+      (step false s .wStep).reqs.length = 2 := by
   decide
 
 /-- the same schedule with the close check in `Read`: the Read fails -/
